@@ -294,6 +294,50 @@ func runC16(c *h.Ctx) {
 			return r
 		}},
 		{"ed25519.UnblindPublicKey", true, func(w wrapFn) []byte { r, _ := ed25519.UnblindPublicKey(w("pub", edBlinded), w("blind", edBlind)); return r }},
+		// blinds of other lengths than 32 bytes (the blinding functions take any byte string as blind key)
+		{"ed25519.BlindPublicKeyWithContext(blind of 31 bytes)", true, func(w wrapFn) []byte {
+			r, err := ed25519.BlindPublicKeyWithContext(w("pub", edPub), w("blind", edBlind[:31]), w("ctx", edCtx))
+			if err != nil {
+				return []byte("err")
+			}
+			return r
+		}},
+		{"ed25519.UnblindPublicKeyWithContext(blind of 31 bytes)", true, func(w wrapFn) []byte {
+			r, err := ed25519.UnblindPublicKeyWithContext(w("pub", edBlinded), w("blind", edBlind[:31]), w("ctx", edCtx))
+			if err != nil {
+				return []byte("err")
+			}
+			return r
+		}},
+		{"ed25519.BlindPublicKey(blind of 1 byte)", true, func(w wrapFn) []byte {
+			r, err := ed25519.BlindPublicKey(w("pub", edPub), w("blind", edBlind[:1]))
+			if err != nil {
+				return []byte("err")
+			}
+			return r
+		}},
+		{"ed25519.BlindPublicKey(empty blind)", true, func(w wrapFn) []byte {
+			r, err := ed25519.BlindPublicKey(w("pub", edPub), w("blind", []byte{}))
+			if err != nil {
+				return []byte("err")
+			}
+			return r
+		}},
+		{"ed25519.BlindPublicKeyWithContext(blind of 45 bytes)", true, func(w wrapFn) []byte {
+			r, err := ed25519.BlindPublicKeyWithContext(w("pub", edPub), w("blind", cat(edBlind, edCtx[:13])), w("ctx", edCtx))
+			if err != nil {
+				return []byte("err")
+			}
+			return r
+		}},
+		{"ecdsa.CreateKey(short)+Blind", true, func(w wrapFn) []byte {
+			k, _ := ecdsa.CreateKey(curve, w("key", blind3[:17]))
+			p, err := ecdsa.BlindPublicKeyWithContext(curve, &ecSk.PublicKey, k, w("ctx", edCtx))
+			if err != nil {
+				return []byte("err")
+			}
+			return cat(p.X.Bytes(), p.Y.Bytes())
+		}},
 		{"ed25519.BlindKeySignWithContext", true, func(w wrapFn) []byte {
 			return ed25519.BlindKeySignWithContext(w("priv", edPriv), w("msg", msg), w("blind", edBlind), w("ctx", edCtx))
 		}},
